@@ -210,6 +210,12 @@ func (e *Eval) dumper(offset int, opCode code.Opcode, opArg interface{}) (bool, 
 // of the constant-pool
 func (e *Eval) Dump() error {
 
+	// There is nothing to show before the script has been prepared,
+	// or when preparing it failed.
+	if e.machine == nil {
+		return fmt.Errorf("the script has not been prepared")
+	}
+
 	fmt.Printf("Bytecode:\n")
 
 	// Use the walker to dump the bytecode.
